@@ -36,8 +36,6 @@ import (
 //verif:stub (*github.com/bluenviron/gohlslib/v2/pkg/playlist.Media).Unmarshal verifStub_MediaUnmarshal
 //verif:stub (github.com/bluenviron/gohlslib/v2/pkg/playlist.Multivariant).Marshal verifStub_MultivariantMarshal
 //verif:stub (*github.com/bluenviron/gohlslib/v2/pkg/playlist.Multivariant).Unmarshal verifStub_MultivariantUnmarshal
-//verif:stub github.com/bluenviron/gohlslib/v2.targetDuration verifStub_targetDuration
-//verif:stub github.com/bluenviron/gohlslib/v2.partTargetDuration verifStub_partTargetDuration
 //verif:stub (*github.com/bluenviron/mediacommon/v2/pkg/formats/mpegts.Writer).Initialize verifStub_TSInit
 //verif:stub (*github.com/bluenviron/mediacommon/v2/pkg/formats/mpegts.Writer).WriteH264 verifStub_TSWriteH264
 //verif:stub (*github.com/bluenviron/mediacommon/v2/pkg/formats/mpegts.Writer).WriteMPEG4Audio verifStub_TSWriteMPEG4Audio
